@@ -10,15 +10,27 @@
 //	                                   M:b SetMinus(s,b) W:b SetMinus(b,s) X/Y XOR C:n Complement(n,s)
 //	                                   s:x ContainsSingle S:b ContainsSorted(s,b) T:b ContainsSorted(b,s)
 //	                                   N:xs NewSortedInts(xs...)
+//	                                   an argument "@" stands for the receiver slice itself (same backing array)
+//	                                   p: a call of Range(5,0,1) whose panic is recovered (P), then the history goes on
+//	                                   R: the slice returned by the last set-valued call becomes the receiver
+//	                                      (from then on the strict part is not emitted: its capacity is the code's choice)
+//	seqn ...                           the same, but every empty operand (and an empty receiver without
+//	                                   spare capacity) is a nil slice
 //	range <start> <end> <step>;        Range
 //	sort;v v v                         ints.Sort
+//	sortsub <pre> <post>;v v v         ints.Sort on the sub-slice arr[pre:pre+n] of an array with pre/post
+//	                                   poisoned cells around it (the cells outside must stay untouched)
 //	sortall <n> <prefix>;              ints.Sort on every array of length n over {0,1,2} with this prefix
 //
 // Observation: seq: the result of every call joined by '|' (sets as comma separated lists, booleans
 // t/f, sizes; "panic" ends the sequence) ## the backing array s[:cap(s)] after every mutator.
 // Around every call the arguments (with their capacity region) are snapshotted and compared, the
 // result of a non-mutating call is scribbled over afterwards to detect aliasing with an argument:
-// failures are oracle violations.
+// failures are oracle violations.  Every set-valued result is then restored and HELD until the end
+// of the case: after every later call all held results must still have their contents (a result
+// that lives in a buffer shared with a later result or with the receiver is reported), at the end
+// all of them are scribbled over (the next cases in the same worker process see fresh state only
+// if the package keeps no reference to them).
 package main
 
 import (
@@ -112,7 +124,8 @@ func call(f func()) (ok bool) {
 
 func runSeq(hdr string, ops []string) *seqRun {
 	r := &seqRun{}
-	recv := strings.TrimPrefix(strings.TrimPrefix(hdr, "seq"), " ")
+	nilMode := strings.HasPrefix(hdr, "seqn")
+	recv := strings.TrimPrefix(strings.TrimPrefix(strings.TrimPrefix(hdr, "seqn"), "seq"), " ")
 	el, poison := recv, ""
 	if i := strings.IndexByte(recv, '+'); i >= 0 {
 		el, poison = recv[:i], recv[i+1:]
@@ -122,6 +135,48 @@ func runSeq(hdr string, ops []string) *seqRun {
 	copy(backing, e)
 	copy(backing[len(e):], p)
 	s := sortints.SortedInts(backing[:len(e)])
+	if nilMode && len(backing) == 0 {
+		s = nil
+		r.buckets = append(r.buckets, "seq:nil-receiver")
+	}
+	type heldRes struct {
+		res, snap []int
+		op        int
+	}
+	var held []heldRes
+	var lastRes []int
+	lastIdx := -1
+	haveLast, noStrict := false, false
+	strict := func(x string) {
+		if !noStrict {
+			r.strict = append(r.strict, x)
+		}
+	}
+	operand := func(arg string) (b, bb []int, self bool) {
+		if arg == "@" {
+			r.buckets = append(r.buckets, "operand-is-receiver")
+			return s, full(s), true
+		}
+		b, bb = withSpare(parseList(arg))
+		if nilMode && len(b) == 0 {
+			r.buckets = append(r.buckets, "nil-operand")
+			return nil, nil, false
+		}
+		return b, bb, false
+	}
+	hold := func(k int, res []int) { // called after the aliasing scribble: restore and keep
+		snap := append([]int(nil), res...)
+		held = append(held, heldRes{res, snap, k})
+		lastRes, haveLast, lastIdx = res, true, len(held)-1
+	}
+	scribbleRestore := func(res []int, check func()) {
+		keep := append([]int(nil), res...)
+		for i := range full(res) {
+			full(res)[i] = -poisonArg
+		}
+		check()
+		copy(res, keep)
+	}
 	r.buckets = append(r.buckets, fmt.Sprintf("seq:len<=%d", bucket(len(e))), fmt.Sprintf("seq:ops<=%d", bucket(len(ops))))
 	if len(p) > 0 {
 		r.buckets = append(r.buckets, "seq:initial-spare-capacity")
@@ -144,24 +199,35 @@ func runSeq(hdr string, ops []string) *seqRun {
 		}
 		var obs string
 		ok := true
+		mutator := false
 		switch kind {
 		case 'a', 'N':
-			xs := parseList(arg)
+			var xa, xb []int
+			self := arg == "@"
+			if self {
+				xa, xb = s, full(s)
+				r.buckets = append(r.buckets, "operand-is-receiver")
+			} else {
+				xa, xb = withSpare(parseList(arg))
+			}
 			seen := map[int]bool{}
-			for _, v := range xs {
+			for _, v := range xa {
 				if seen[v] || (kind == 'a' && member(s, v)) {
 					r.nontrivial = true
 					r.buckets = append(r.buckets, "args-with-repeat-or-present")
 				}
 				seen[v] = true
 			}
-			xa, xb := withSpare(xs)
+			if nilMode && len(xa) == 0 && !self {
+				xa, xb = nil, nil
+			}
 			xsnap := append([]int(nil), xb...)
 			if kind == 'a' {
+				mutator = true
 				ok = call(func() { s.Add(xa...) })
 				if ok {
 					obs = hx.Ints(s)
-					r.strict = append(r.strict, hx.Ints(full(s)))
+					strict(hx.Ints(full(s)))
 					if !same(recvSnap, full(recvBefore)) {
 						fail("old-array-changed", "Add wrote into the receiver's old backing array: %v -> %v", recvSnap, full(recvBefore))
 					}
@@ -171,41 +237,45 @@ func runSeq(hdr string, ops []string) *seqRun {
 				ok = call(func() { res = sortints.NewSortedInts(xa...) })
 				if ok {
 					obs = hx.Ints(res)
-					for i := range full(res) {
-						full(res)[i] = -poisonArg
-					}
-					if !same(recvSnap, full(s)) {
-						fail("receiver-changed", "NewSortedInts changed an unrelated value: %v -> %v", recvSnap, full(s))
-					}
+					scribbleRestore(res, func() {
+						if !same(recvSnap, full(s)) {
+							fail("receiver-changed", "NewSortedInts changed or aliased the receiver: %v -> %v", recvSnap, full(s))
+						}
+						if !self && !same(xsnap, xb) {
+							fail("argument-changed", "the variadic argument slice is aliased by the result: %v -> %v", xsnap, xb)
+						}
+					})
+					hold(k, res)
 				}
 			}
-			if !same(xsnap, xb) {
+			if !self && !same(xsnap, xb) {
 				fail("argument-changed", "the variadic argument slice was changed or aliased: %v -> %v", xsnap, xb)
 			}
 		case 'r':
+			mutator = true
 			x := parseList(arg)[0]
 			ok = call(func() { s.Remove(x) })
 			if ok {
 				obs = hx.Ints(s)
-				r.strict = append(r.strict, hx.Ints(full(recvBefore)))
+				strict(hx.Ints(full(recvBefore)))
 			}
 		case 'u':
-			b, bb := withSpare(parseList(arg))
+			mutator = true
+			b, bb, self := operand(arg)
 			bsnap := append([]int(nil), bb...)
 			ok = call(func() { s.Union(sortints.SortedInts(b)) })
 			if ok {
 				obs = hx.Ints(s)
-				r.strict = append(r.strict, hx.Ints(full(s)))
-				// scribbling over the receiver must not reach the argument
-				keep := append([]int(nil), full(s)...)
-				for i := range full(s) {
-					full(s)[i] = -poisonArg
+				strict(hx.Ints(full(s)))
+				if !self {
+					// scribbling over the receiver must not reach the argument
+					scribbleRestore(full(s), func() {
+						if !same(bsnap, bb) {
+							fail("argument-changed", "s.Union(b) changed or aliased b: %v -> %v", bsnap, bb)
+						}
+					})
 				}
-				if !same(bsnap, bb) {
-					fail("argument-changed", "s.Union(b) changed or aliased b: %v -> %v", bsnap, bb)
-				}
-				copy(full(s), keep)
-			} else if !same(bsnap, bb) {
+			} else if !self && !same(bsnap, bb) {
 				fail("argument-changed", "s.Union(b) changed b: %v -> %v", bsnap, bb)
 			}
 		case 's':
@@ -213,18 +283,37 @@ func runSeq(hdr string, ops []string) *seqRun {
 			var res bool
 			ok = call(func() { res = sortints.ContainsSingle(s, x) })
 			obs = boolStr(res)
+		case 'p':
+			// a recovered panic inside the package, then the history continues
+			if call(func() { sortints.Range(5, 0, 1) }) {
+				obs = "noP"
+			} else {
+				obs = "P"
+			}
+			r.buckets = append(r.buckets, "recovered-panic-then-more-calls")
+		case 'R':
+			if haveLast {
+				s = sortints.SortedInts(lastRes)
+				held[lastIdx].op = -1 // now the receiver: mutators may change it
+				haveLast = false
+				noStrict = true
+				obs = hx.Ints(s)
+				r.buckets = append(r.buckets, "result-adopted-as-receiver")
+			} else {
+				obs = "-"
+			}
+			mutator = true
 		case 'C':
 			n := parseList(arg)[0]
 			var res sortints.SortedInts
 			ok = call(func() { res = sortints.Complement(n, s) })
 			if ok {
 				obs = hx.Ints(res)
-				for i := range full(res) {
-					full(res)[i] = -poisonArg
-				}
+				scribbleRestore(res, func() {})
+				hold(k, res)
 			}
 		default:
-			b, bb := withSpare(parseList(arg))
+			b, bb, _ := operand(arg)
 			bsnap := append([]int(nil), bb...)
 			sb := sortints.SortedInts(b)
 			var res sortints.SortedInts
@@ -266,21 +355,34 @@ func runSeq(hdr string, ops []string) *seqRun {
 			}
 			if ok && isSet {
 				obs = hx.Ints(res)
-				for i := range full(res) {
-					full(res)[i] = -poisonArg
-				}
+				scribbleRestore(res, func() {
+					if !same(bsnap, bb) {
+						fail("argument-changed", "argument b is aliased by the result: %v -> %v", bsnap, bb)
+					}
+					if !same(recvSnap, full(s)) {
+						fail("argument-changed", "argument s is aliased by the result: %v -> %v", recvSnap, full(s))
+					}
+				})
+				hold(k, res)
 			}
 			if !same(bsnap, bb) {
-				fail("argument-changed", "argument b was changed or is aliased by the result: %v -> %v", bsnap, bb)
+				fail("argument-changed", "argument b was changed: %v -> %v", bsnap, bb)
 			}
 		}
 		// non-mutating calls leave the receiver value (and its capacity region) untouched
-		switch kind {
-		case 'a', 'r', 'u':
-		default:
+		if !mutator {
 			if !same(recvSnap, full(s)) || len(s) != len(recvBefore) {
-				fail("argument-changed", "argument s was changed or is aliased by the result: %v -> %v", recvSnap, full(s))
+				fail("argument-changed", "argument s was changed: %v -> %v", recvSnap, full(s))
 			}
+		}
+		// every result of an earlier call still has its contents
+		for _, h := range held {
+			if h.op >= 0 && h.op != k && !same(h.res, h.snap) {
+				fail("earlier-result-changed", "the result of op %d changed afterwards: %v -> %v", h.op, h.snap, h.res)
+			}
+		}
+		if len(held) > 1 {
+			r.buckets = append(r.buckets, "results-held")
 		}
 		if !ok {
 			r.out = append(r.out, "panic")
@@ -288,6 +390,14 @@ func runSeq(hdr string, ops []string) *seqRun {
 			break
 		}
 		r.out = append(r.out, obs)
+	}
+	// the caller overwrites everything it was given: nothing of it may matter to later cases
+	for _, h := range held {
+		if h.op >= 0 {
+			for i := range full(h.res) {
+				full(h.res)[i] = -poisonArg
+			}
+		}
 	}
 	return r
 }
@@ -333,7 +443,7 @@ func exec(line string) hx.Result {
 		return hx.Result{Obs: "bad"}
 	}
 	switch hdr[0] {
-	case "seq":
+	case "seq", "seqn":
 		r := runSeq(line[:i], toks)
 		st := strings.Join(r.strict, "|")
 		if len(r.strict) > 0 {
@@ -367,6 +477,33 @@ func exec(line string) hx.Result {
 			viol = append(viol, hx.Fail("C17:sort-differs-from-sort.Ints", "ints.Sort differs from sort.Ints on an input of length %d", len(in)))
 		}
 		return hx.Result{Obs: hx.Ints(a), Nontrivial: !sort.IntsAreSorted(in), Buckets: []string{fmt.Sprintf("sort:len<=%d", bucket(len(a)))}, Viol: viol}
+	case "sortsub":
+		if len(hdr) != 3 {
+			return hx.Result{Obs: "bad"}
+		}
+		pre, _ := strconv.Atoi(hdr[1])
+		post, _ := strconv.Atoi(hdr[2])
+		vals := parseList(strings.Join(toks, ","))
+		arr := make([]int, pre+len(vals)+post)
+		for i := range arr {
+			arr[i] = 880001 + i
+		}
+		copy(arr[pre:], vals)
+		whole := append([]int(nil), arr...)
+		sub := arr[pre : pre+len(vals)] // its capacity reaches to the end of arr
+		if !call(func() { ints.Sort(sub) }) {
+			return hx.Result{Obs: "panic", Nontrivial: true}
+		}
+		var viol []hx.OracleViolation
+		if !same(whole[:pre], arr[:pre]) || !same(whole[pre+len(vals):], arr[pre+len(vals):]) {
+			viol = append(viol, hx.Fail("C17:sort-outside-range", "ints.Sort(arr[%d:%d]) changed cells outside the slice", pre, pre+len(vals)))
+		}
+		ref := append([]int(nil), vals...)
+		sort.Ints(ref)
+		if !same(ref, sub) {
+			viol = append(viol, hx.Fail("C17:sort-differs-from-sort.Ints", "ints.Sort on a sub-slice differs from sort.Ints (length %d)", len(vals)))
+		}
+		return hx.Result{Obs: hx.Ints(sub), Nontrivial: !sort.IntsAreSorted(vals), Buckets: []string{fmt.Sprintf("sortsub:len<=%d", bucket(len(vals)))}, Viol: viol}
 	case "sortall":
 		if len(hdr) < 2 {
 			return hx.Result{Obs: "bad"}
